@@ -329,6 +329,11 @@ func (g *scenGen) genUnk() *Item {
 			}
 			it.Tokens = []string{tok}
 			it.UnkNames = []string{n}
+			if long && g.r.Chance(1, 10) {
+				// a mistyped option with three or four dashes is option-looking too and never a declared name
+				it.Tokens = []string{g.r.Pick([]string{"-", "--"}) + tok}
+				it.UnkNames = []string{"\x00" + n}
+			}
 			return it
 		}
 		if g.mode == 1 { // bundle of unknown letters
